@@ -29,7 +29,7 @@ for p in props:
     })
 m = {
     'version': 1,
-    'setup_cmd': 'cd lean && lake build',
+    'setup_cmd': '/venv/bin/python tools/regen_tables.py && cd lean && lake build',
     'hooks': {'guard': 'TESTTOOLS_VERIF',
               'enable': 'no hooks are needed: the harness injects semaphores, queues, threads and reactors through public constructor arguments and module attributes',
               'baseline_off_cmd': 'cd /repo && /venv/bin/python -m pytest -ra -q -p no:cacheprovider --timeout=900 --continue-on-collection-errors',
